@@ -1115,3 +1115,75 @@ Proof.
   match goal with |- bind ?x _ = bind ?y _ => change x with y; destruct y as [[[nr sz] d]|w|w] end; cbn [bind]; reflexivity.
 Qed.
 (* END *)
+
+(* ---------- arithmetic.rs: one major-axis vector as a slice, and the closure-taking product ---------- *)
+(* BEGIN Matrix_get_nth_major_axis_vector *)
+Lemma gen_Matrix_get_nth_major_axis_vector {A} c (m : matrix A) n : G_Matrix_get_nth_major_axis_vector c m n = get_nth_major_axis_vector c m n.
+Proof.
+  unfold G_Matrix_get_nth_major_axis_vector, get_nth_major_axis_vector.
+  cbn [G_Matrix_major_stride G_AxisShape_major_stride bind mview f_Matrix_shape].
+  destruct (umul c n _) as [lo|w|w]; cbn [bind]; try reflexivity.
+  destruct (uadd c lo _) as [hi|w|w]; cbn [bind]; try reflexivity.
+  destruct (slice_unchecked (m_data m) lo hi); reflexivity.
+Qed.
+(* END *)
+(* BEGIN Matrix_multiplication_like_operation *)
+(* the nested loops pushing one element per (row, column) are the model's concat of per-row (per-column) maps; the operands
+   are re-ordered by the translated set_order, run with the fuel the model uses *)
+Lemma for_push_inner {X} (f : Z -> res X) : forall (l : list Z) (d : list X),
+  for_res l d (fun col d => let* e := f col in Val (d ++ [e])) = let* ys := map_res f l in Val (d ++ ys).
+Proof.
+  induction l as [|i l IH]; intros d; cbn [for_res map_res bind]; [rewrite app_nil_r; reflexivity|].
+  destruct (f i) as [e|w|w]; cbn [bind]; try reflexivity. rewrite IH.
+  destruct (map_res f l) as [ys|w|w]; cbn [bind]; try reflexivity. rewrite <- app_assoc. reflexivity.
+Qed.
+Lemma for_push_outer {X} (f : Z -> Z -> res X) (inner : list Z) : forall (l : list Z) (d : list X),
+  for_res l d (fun row d => for_res inner d (fun col d => let* e := f row col in Val (d ++ [e])))
+  = let* rows := map_res (fun row => map_res (fun col => f row col) inner) l in Val (d ++ concat rows).
+Proof.
+  induction l as [|i l IH]; intros d; cbn [for_res map_res bind concat]; [rewrite app_nil_r; reflexivity|].
+  rewrite (for_push_inner (f i) inner d).
+  destruct (map_res (f i) inner) as [ys|w|w]; cbn [bind]; try reflexivity. rewrite IH.
+  destruct (map_res _ l) as [rows|w|w]; cbn [bind concat]; try reflexivity. rewrite <- app_assoc. reflexivity.
+Qed.
+
+Lemma bind_val_id {X} (r : res X) : (let* x := r in Val x) = r.
+Proof. destruct r; reflexivity. Qed.
+Lemma for_res_ext_n {S} (l : list Z) (s : S) f g : (forall i s, f i s = g i s) -> for_res l s f = for_res l s g.
+Proof. intros E. revert s. induction l as [|i l IH]; intros s; cbn [for_res]; [reflexivity|]. rewrite E. destruct (g i s); cbn [bind]; auto. Qed.
+
+Lemma gen_Matrix_multiplication_like_operation {L R U} c esL esR esU (dflt : U) (a : matrix L) (b : matrix R) (op : list L -> list R -> res U) :
+  0 <= imax c ->
+  G_Matrix_multiplication_like_operation c esL esR esU (S (length (m_data a))) (S (length (m_data b))) dflt a b op =
+    multiplication_like_operation c esL esR esU dflt op a b.
+Proof.
+  intros Hc. unfold G_Matrix_multiplication_like_operation, multiplication_like_operation, mul_decision, is_mul_conformable, decide_shape.
+  rewrite gen_Matrix_ensure_multiplication_like_operation_conformable. cbn [bind mview f_Matrix_order f_Matrix_shape].
+  destruct (is_multiplication_conformable (m_order a) (m_shape a) (m_order b) (m_shape b)); cbn [negb bind]; [|reflexivity].
+  rewrite !gen_Matrix_nrows, !gen_Matrix_ncols. cbn [bind mview f_Matrix_order f_Matrix_shape G_Shape_new].
+  rewrite gen_Shape_try_to_axis_shape. cbn [bind]. unfold nrows, ncols.
+  destruct (Shape_try_to_axis_shape c _ (m_order a)) as [s|e]; [|reflexivity].
+  rewrite gen_AxisShape_size. destruct (AxisShape_size c s) as [n|w|w]; cbn [bind]; try reflexivity.
+  rewrite gen_Matrix_check_size by exact Hc. cbn [bind]. destruct (check_size c esU n) as [sz|e]; [|reflexivity].
+  cbv zeta. cbn [bind mview f_Matrix_order f_Matrix_shape].
+  destruct (AxisShape_ncols (m_shape a) (m_order a) =? 0).
+  - unfold vec_resize_with, vec_with_capacity. cbn [zlen length Z.of_nat app].
+    destruct (sz <=? 0) eqn:Lz; [|rewrite Z.sub_0_r; reflexivity].
+    unfold zfirstn, zrepeat. replace (Z.to_nat sz) with 0%nat by lia. reflexivity.
+  - rewrite gen_Matrix_set_order_model. destruct (set_order c esL a RowMajor) as [a'|w|w]; cbn [bind]; try reflexivity.
+    rewrite gen_Matrix_set_order_model. destruct (set_order c esR b ColMajor) as [b'|w|w]; cbn [bind]; try reflexivity.
+    unfold vec_with_capacity, vec_push.
+    set (cell := fun row col => let* l := get_nth_major_axis_vector c a' row in let* r := get_nth_major_axis_vector c b' col in op l r).
+    destruct (m_order a).
+    + rewrite (for_res_ext_n _ _ _ (fun row d => for_res (zseq (AxisShape_ncols (m_shape b) (m_order b))) d (fun col d => let* e := cell row col in Val (d ++ [e])))).
+      2:{ intros row d. rewrite bind_val_id. apply for_res_ext_n. intros col d'. unfold cell. rewrite !gen_Matrix_get_nth_major_axis_vector.
+          destruct (get_nth_major_axis_vector c a' row) as [l|w|w]; cbn [bind]; try reflexivity.
+          all: try (destruct (get_nth_major_axis_vector c b' col) as [r|w|w]; cbn [bind]; try reflexivity; destruct (op l r); reflexivity). }
+      rewrite (for_push_outer cell). cbn [app]. destruct (map_res _ _) as [rows|w|w]; reflexivity.
+    + rewrite (for_res_ext_n _ _ _ (fun col d => for_res (zseq (AxisShape_nrows (m_shape a) ColMajor)) d (fun row d => let* e := cell row col in Val (d ++ [e])))).
+      2:{ intros col d. rewrite bind_val_id. apply for_res_ext_n. intros row d'. unfold cell. rewrite !gen_Matrix_get_nth_major_axis_vector.
+          destruct (get_nth_major_axis_vector c a' row) as [l|w|w]; cbn [bind]; try reflexivity.
+          all: try (destruct (get_nth_major_axis_vector c b' col) as [r|w|w]; cbn [bind]; try reflexivity; destruct (op l r); reflexivity). }
+      rewrite (for_push_outer (fun col row => cell row col)). cbn [app]. destruct (map_res _ _) as [cols|w|w]; reflexivity.
+Qed.
+(* END *)
